@@ -141,6 +141,50 @@ def conversions_and_fromscalars(ctx, T, db, r, n_cases):
             ctx.violation("conversion-raised:%s" % type(e).__name__, dict(case, error=str(e)[:200]), replay=case)
 
 
+def integer_containers(ctx, T, db, r, n_cases):
+    """One operand holds integers (int64 / int32 ndarray, or a list of ints), the other non-integral floats in
+    another container kind: the result must still be the elementwise Scalar result (no operand may be cast to
+    the other's dtype)."""
+    import numpy as np
+    from barril.units import Array, Scalar
+
+    ubt = {qt: [u for u in us if u in T.aff and T.aff[u].exact and T.aff[u].off == 0 and T.aff[u].slope > 0] for qt, us in table.units_by_type(db).items() if qt != "Unknown"}
+    qts = [q for q, us in ubt.items() if len(us) >= 2]
+    mk = {
+        "int64 nd": lambda v: np.array(v, dtype=np.int64), "int32 nd": lambda v: np.array(v, dtype=np.int32), "int list": lambda v: [int(x) for x in v], "int tuple": lambda v: tuple(int(x) for x in v),
+        "float list": list, "float tuple": tuple, "float nd": lambda v: np.array(v, dtype=float), "float32 nd": lambda v: np.array(v, dtype=np.float32),
+    }  # fmt: skip
+    for _ in range(n_cases):
+        qt, qt2 = r.choice(qts), r.choice(qts)
+        opn = r.choice(["+", "-", "*", "/", "//"])
+        if opn in ("+", "-"):
+            qt2 = qt
+        u, v = r.choice(ubt[qt]), r.choice(ubt[qt2])
+        n = r.choice([1, 2, 3])
+        ints = [float(r.choice([1, 2, 3, 5, 7, -4, 10])) for _ in range(n)]
+        flts = [r.choice([0.25, 0.5, 1.75, -2.5, 3.125, 0.125]) for _ in range(n)]
+        ka = r.choice(["int64 nd", "int32 nd", "int list", "int tuple"])
+        kb = r.choice(["float list", "float tuple", "float nd"])
+        for order in ("int,float", "float,int"):
+            case = {"qt": qt, "qt2": qt2, "u": u, "v": v, "ints": ints, "floats": flts, "int_container": ka, "float_container": kb, "op": opn, "order": order}
+            ctx.ev()
+            ctx.nt(("intcont", ka, kb, opn, order, u == v))
+            try:
+                A, Bv = Array(mk[ka](ints), u), Array(mk[kb](flts), v)
+                x, y, xs, ys, ux, uy = (A, Bv, ints, flts, u, v) if order == "int,float" else (Bv, A, flts, ints, v, u)
+                ref = [OPS[opn](Scalar(a, ux), Scalar(b, uy)) for a, b in zip(xs, ys)]
+            except Exception:
+                continue
+            try:
+                res = OPS[opn](x, y)
+            except Exception as e:
+                ctx.violation("int-container:raised:%s:%s/%s" % (type(e).__name__, ka.split()[0], kb.split()[0]), dict(case, error=str(e)[:200]), replay=case)
+                continue
+            got = [float(g) for g in res.GetValues()]
+            if res.GetQuantity() != ref[0].GetQuantity() or len(got) != n or not all(close(g, s.GetValue()) for g, s in zip(got, ref)):
+                ctx.violation("int-container:value:%s:%s/%s" % (opn, ka, kb), dict(case, got=got, scalars=[s.GetValue() for s in ref], result_unit=res.GetUnit()), replay=case)
+
+
 def run(ctx):
     from barril.units import Array, UnitDatabase
     from barril.units._value_generator import _ValueGenerator
@@ -151,7 +195,8 @@ def run(ctx):
         "pairs of operand programs (random trees, same-dimension pairs with differing units/categories, CreateDerived leaves) x 5 operators x 9 container "
         "combinations x lengths {0,1,2,3,7} incl. mismatched lengths: each element and the quantity of the Array result compared with the result of the same operation "
         "on the corresponding Scalars (4 ulp), raise/no-raise must agree, different lengths must raise, result container rule; Array.FromScalars and GetValues(unit) "
-        "against Scalar.GetValue. distinct non-trivial = (operator, dimension vectors, lengths)"
+        "against Scalar.GetValue; integer containers (int64/int32 ndarray, int list/tuple) against non-integral floats in another container kind, both orders. "
+        "distinct non-trivial = (operator, dimension vectors, lengths)"
     )
     ctx.assumptions = ["one-dimensional, non-ragged containers", "the Scalar operators are the reference (C03/C04 vouch for them)"]
     r = ctx.rng("c10")
@@ -177,4 +222,5 @@ def run(ctx):
                 if done <= 2 and ctx.shard == 0:
                     ctx.sample({"a": programs.render(sa), "b": programs.render(sb), "op": opn, "lengths": [n, nb]})
         conversions_and_fromscalars(ctx, T, db, r, 300 if ctx.tier == "quick" else 5000)
+        integer_containers(ctx, T, db, ctx.rng("ints"), 400 if ctx.tier == "quick" else 8000)
     ctx.inconclusive_if(probe.COUNTS["Array.__add__"] == 0 or probe.COUNTS["Array.__floordiv__"] == 0 or probe.COUNTS["Array.FromScalars"] == 0, "Array operators never reached")
